@@ -1,12 +1,181 @@
 /-
-  Oracle commands for C07 (stub: owns no commands yet).
+  Oracle commands for C07 (runner prompt cache):
+    hist <resetEnd> <parallel> <ctx> <batch> <multi> <canShift> <vocab> <eosMod> <n> <event>*
+      event := req <keep> <numPredict> <nstops> <stop>* <nprompt> <tok>*
+             | step <adopt>            adopt := - | e | loc.pos.tok.dpos.s+s,...   (layout observed after a defrag)
+             | busy <nprompt> <tok>*
+        -> the observations after every event, ` | `-separated (same text as the Go driver prints)
+    ll-longest <nslots> {<inUse> <lastUsed> <n> tok*}* <nprompt> tok*     (llamarunner pure functions)
+    ll-best    <now> <nslots> {...}* <nprompt> tok*
+    ll-discard <numCtx> <inputLen> <numKeep>
 -/
+import OllamaVerif.Model.Runner
 import Oracle.Util
 namespace Oracle.C07
-open Oracle
+open Oracle OllamaVerif.Runner
+
+def showToks (xs : List Nat) : String :=
+  if xs.isEmpty then "-" else joinWith "," (xs.map toString)
+
+def showStr (s : Str) : String := String.ofList s
+
+def showCells (cells : List Cell) : String :=
+  let occ := (cells.zipIdx).filter fun (c, _) => !c.seqs.isEmpty
+  if occ.isEmpty then "e"
+  else joinWith "," (occ.map fun (c, i) =>
+    s!"{i}.{c.pos}.{c.tok}.{c.dpos}.{joinWith "+" ((c.seqs.toArray.qsort (· < ·)).toList.map toString)}")
+
+def showState (sv : Server) : String :=
+  let slots := sv.cache.slots.map fun s =>
+    s!"S{s.id}:{if s.inUse then 1 else 0}:{s.lastUsed}:{showToks s.inputs};"
+  let seqs := (sv.seqs.zipIdx).map fun (q, i) =>
+    match q with
+    | none => s!"Q{i}:nil;"
+    | some sq =>
+      let pr := sq.pendingResp.flatten
+      s!"Q{i}:{(getSlot sv.cache.slots sq.slot).id}:{showToks sq.inputs}:{showToks sq.pending}:{sq.numPredicted}:{if pr.isEmpty then "-" else showStr pr};"
+  String.join slots ++ s!"n{sv.nextSeq};" ++ String.join seqs ++ "K" ++ showCells sv.cache.cells
+
+def showStep (n : Nat) (o : StepObs) : String :=
+  let b := joinWith " " (o.batch.map fun t => s!"{t.tok}@{t.pos}/{t.seq}")
+  let outs := joinWith " " (o.outs.map fun (s, t) => s!"{s}:{t}")
+  let rs := (List.range n).flatMap fun i => (o.resps.filter (·.1 == i)).map fun (_, s) => s!"{i}:{showStr s}"
+  let ds := (List.range n).flatMap fun i => (o.dones.filter (·.1 == i)).map fun (_, r) => s!"{i}:{r}"
+  s!"step:B[{b}]O[{outs}]R[{joinWith " " rs}]D[{joinWith " " ds}]"
+
+/-- run one event; `none` state = the history ended (processBatch returned an error) -/
+def runEvent (sv : Server) (now : Nat) : Event → String × Option Server
+  | .req keep np stops prompt =>
+    match newSequence sv.cache.numCtx prompt keep with
+    | .error _ => ("req:err:newseq", some sv)
+    | .ok (inputs, numKeep) =>
+      match sv.seqs.findIdx? (·.isNone) with
+      | none => ("req:err:noindex", some sv)
+      | some i =>
+        match loadCacheSlot sv.cache inputs now true with
+        | .error _ => ("req:err:load", some sv)
+        | .ok (c, si, rest) =>
+          let sq : Seq := { inputs := rest, pending := [], slot := si, numPredict := np, numPredicted := 0,
+                            numKeep := numKeep, stops := stops, pendingResp := [], iBatch := 0 }
+          let sv := { sv with cache := c, seqs := sv.seqs.set i (some sq) }
+          (s!"req:ok,i={i},slot={(getSlot c.slots si).id},rest={rest.length}", some sv)
+  | .busy prompt =>
+    match loadCacheSlot sv.cache prompt now true with
+    | .error .nilDeref => ("busy:panic", some sv)
+    | .error _ => ("busy:err", some sv)
+    | .ok (c, _, _) => ("busy:ok", some { sv with cache := c })
+  | .step adopt =>
+    match processBatch sv adopt with
+    | .error .badHint => ("step:bad-hint", none)
+    | .error _ => ("step:err", none)
+    | .ok (sv, o) => (showStep sv.seqs.length o, some sv)
+
+def runHist (sv : Server) : List Event → Nat → List String → List String
+  | [], _, acc => acc.reverse
+  | e :: es, now, acc =>
+    match runEvent sv now e with
+    | (o, none) => (o :: acc).reverse
+    | (o, some sv') => runHist sv' es (now + 1) ((o ++ " {" ++ showState sv' ++ "}") :: acc)
+
+/-! parsing -/
+
+def pStr : TP Str := do
+  let t ← tok
+  pure t.toList
+
+def splitNat (s : String) (sep : Char) : Option (List Nat) :=
+  (s.splitOn (String.singleton sep)).mapM fun x => x.toNat?
+
+def pCell (s : String) : Option (Nat × Cell) :=
+  match s.splitOn "." with
+  | [loc, pos, tk, dpos, seqs] => do
+    let loc ← loc.toNat?
+    let pos ← pos.toInt?
+    let tk ← tk.toNat?
+    let dpos ← dpos.toInt?
+    let seqs ← splitNat seqs '+'
+    pure (loc, ⟨pos, seqs, tk, dpos⟩)
+  | _ => none
+
+def pAdopt (cap : Nat) : TP (Option (List Cell)) := do
+  let t ← tok
+  if t == "-" then pure none
+  else if t == "e" then pure (some (List.replicate cap Cell.free))
+  else
+    match (t.splitOn ",").mapM pCell with
+    | none => failure
+    | some cs => pure (some (cs.foldl (fun acc (loc, c) => acc.set loc c) (List.replicate cap Cell.free)))
+
+def pEvent (cap : Nat) : TP Event := do
+  let k ← tok
+  match k with
+  | "req" =>
+    let keep ← int
+    let np ← int
+    let stops ← listOf pStr
+    let prompt ← listOf nat
+    pure (.req keep np stops prompt)
+  | "busy" => return .busy (← listOf nat)
+  | "step" => return .step (← pAdopt cap)
+  | _ => failure
+
+def pSlot (i : Nat) : TP Slot := do
+  let u ← nat
+  let lu ← nat
+  let ins ← listOf nat
+  pure ⟨i, ins, u != 0, lu⟩
+
+def pSlots : TP (List Slot) := do
+  let n ← nat
+  let rec go (k i : Nat) : TP (List Slot) :=
+    match k with
+    | 0 => pure []
+    | k + 1 => do
+      let s ← pSlot i
+      let r ← go k (i + 1)
+      pure (s :: r)
+  go n 0
+
+def showFind : Except Fail (Nat × Nat) → String
+  | .ok (i, n) => s!"ok {i} {n}"
+  | .error .noSlots => "err:noslots"
+  | .error _ => "panic"
 
 def handle (toks : List String) : Option String :=
   match toks with
+  | "hist" :: rest =>
+    runTP (do
+      let resetEnd ← int
+      let parallel ← nat
+      let ctx ← nat
+      let batch ← nat
+      let multi ← nat
+      let canShift ← nat
+      let vocab ← nat
+      let eosMod ← nat
+      let evs ← listOf (pEvent (parallel * ctx))
+      let sv := mkServer resetEnd parallel ctx batch (multi != 0) (canShift != 0) vocab eosMod
+      pure (joinWith " | " (runHist sv evs 1 []))) rest
+  | "ll-longest" :: rest =>
+    runTP (do
+      let slots ← pSlots
+      let prompt ← listOf nat
+      pure (showFind (findLongest slots prompt))) rest
+  | "ll-best" :: rest =>
+    runTP (do
+      let now ← nat
+      let slots ← pSlots
+      let prompt ← listOf nat
+      let c : Cache := { numCtx := 1, multiUser := true, canShift := true, resetEnd := -1, slots := slots, cells := [] }
+      pure (match findBest c prompt now with
+        | .ok (c', i, n) => s!"ok {i} {n} [{joinWith ";" (c'.slots.map fun s => showToks s.inputs)}]"
+        | .error .noSlots => "err:noslots"
+        | .error _ => "panic")) rest
+  | ["ll-discard", a, b, c] => do
+    let numCtx ← a.toNat?
+    let inputLen ← b.toNat?
+    let keep ← c.toNat?
+    pure (toString (shiftDiscard numCtx inputLen keep))
   | _ => none
 
 end Oracle.C07
